@@ -213,6 +213,9 @@ func (i *interpreter) rollback() {
 	i.undo = i.undo[:0]
 }
 
+// curFrame is the frame executing most recently (for diagnostics).
+var curFrame *frame
+
 var debugPanics = os.Getenv("SYMGO_DEBUG") != ""
 
 // theInterp is the single interpreter of this process.
@@ -748,6 +751,7 @@ func runFrame(fr *frame) {
 		}
 
 		nonPhis := executePhis(fr)
+		curFrame = fr
 		if cur != nil {
 			cur.steps += int64(len(nonPhis))
 			if cur.steps > cur.maxSteps {
